@@ -1471,9 +1471,8 @@ class MPO(MPSGeometry):
             if self.get_IdL(i) is None:
                 continue
             partial_L[self.get_IdL(i)] = [([], 1.0)]
-            if self.finite:
-                max_range = min(max_range, L - i - 1)
-            for k in range(max_range + 1):
+            max_range_i = min(max_range, L - i - 1) if self.finite else max_range
+            for k in range(max_range_i + 1):
                 j = i + k
                 IdL = self.get_IdL(j)
                 IdR = self.get_IdR(j)
